@@ -1419,6 +1419,31 @@ func (e *Engine) evalCall(ctx *EvalCtx, x *Expr) (Val, error) {
 			}
 			return boolVal("false"), nil
 		}
+	case "$visited":
+		// $visited(k): the range-over-map loop at hand has already yielded key k
+		vs, err := args()
+		if err != nil {
+			return Val{}, err
+		}
+		if len(vs) == 1 && ctx.f != nil {
+			for r, vis := range ctx.st.visited {
+				if ctx.loop != nil {
+					inLoop := false
+					for b := range ctx.loop.Blocks {
+						for _, in := range b.Instrs {
+							if n, ok := in.(*ssa.Next); ok && n.Iter == ssa.Value(r) {
+								inLoop = true
+							}
+						}
+					}
+					if !inLoop {
+						continue
+					}
+				}
+				return boolVal(fmt.Sprintf("(select %s %s)", vis, vs[0].S)), nil
+			}
+		}
+		return Val{}, fmt.Errorf("$visited(key): no range-over-map iterator here")
 	case "has", "in":
 		// has(m, k): key presence in a map
 		vs, err := args()
